@@ -167,6 +167,16 @@ CLAIMS = {
         "exactly-once overall). Conversions (arrays, nested arrays, tuples, slices, FromIterator short/exact/long, matrix row/col arrays in both layouts) are recorded from the code "
         "and validated by TLC against the ledger specification."),
   design="§6 C18"),
+ "C20": dict(
+  technique="TLA+ spec of the scalar numeric operations and of the lifting rule (VekLift), tables emitted by TLC replayed into the real code lane by lane (spec->code); cast/approx traces validated by TLC (code->spec); feature configurations enumerated by TLC (MC_Features), built and probed, and the build log validated by TLC",
+  text=("TLC prints the scalar semantics of checked/wrapping/saturating/overflowing add, sub, mul, checked div/rem/neg and Euclidean division/remainder for every pair of i8/u8 operands (thorough; "
+        "boundary left operands in quick); the harness places each entry in one lane (every fourth entry in two lanes) of a vector, rotating through all 13 vector types and all lane positions "
+        "with fixed exact values elsewhere, and checks that lane = table, the others untouched, None exactly when a lane is None, flag = OR of the lanes' flags. as_/numcast/the six az casts "
+        "(method and trait forms) on every vector type, on matrices in both layouts and on boxes, rectangles and segments, Zero/One/is_zero/Inv, and abs-diff/relative/ULP equality of vectors, "
+        "matrices and quaternions (all float classes, near-threshold neighbours, tolerance pairs in both orders) against the conjunction of the scalar predicate are recorded and validated by "
+        "TLC. TLC enumerates {std, libm} x (no feature, each of the 14 features, each pair in thorough, all 14); every configuration is built offline on stable together with a fixed probe "
+        "program and TLC validates that all were built, all succeeded and the probe's digest is identical under every configuration."),
+  design="§6 C20, §12"),
 }
 
 PENDING_REASON = "check for this property is not built yet in this round (see DESIGN.md §10 build order); no claim made"
